@@ -89,7 +89,11 @@ func ctObserve(s *of.CTStates) (hdr, val, mask uint32, err error) {
 	if len(b) != 12 {
 		return 0, 0, 0, fmt.Errorf("ct_state field encodes to %d bytes (%x), want 12", len(b), b)
 	}
-	return binary.BigEndian.Uint32(b), binary.BigEndian.Uint32(b[4:]), binary.BigEndian.Uint32(b[8:]), nil
+	hdr, val, mask = binary.BigEndian.Uint32(b), binary.BigEndian.Uint32(b[4:]), binary.BigEndian.Uint32(b[8:])
+	for i := range b {
+		b[i] ^= 0xff // the encoding is the caller's: overwriting it changes nothing for anyone else
+	}
+	return hdr, val, mask, nil
 }
 
 func ctSeqString(ops []int) string {
